@@ -432,6 +432,9 @@ Proof.
     destruct k; simpl in *; auto.
 Qed.
 
+Lemma dbegin_snoc l e k : dbegin_flush (l ++ [e]) k = GPc (QPut (l ++ [e]) k).
+Proof. destruct l; reflexivity. Qed.
+
 Lemma dwstep_spec c f d v w d' v' w' :
   dwstep c f d v w = (d', v', w') -> wkind (dw_pc w) ->
   lspec d v (dw_pc w) d' v' (dw_pc w') /\ wkind (dw_pc w') /\ res_change w w' v'.
@@ -475,13 +478,12 @@ Proof.
         -- constructor; unfold vL; simpl; intros; try discriminate; auto using dur_same; inapp; tauto.
         -- right. exists e, RFull. split; [reflexivity|discriminate].
       * destruct (db_should_flush (dc_c c) (db_append (v_buf v) e)).
-        -- inversion H; subst; clear H. simpl.
-           destruct (db_items (v_buf v) ++ [e]) as [|x0 r0] eqn:Ei; [destruct (db_items (v_buf v)); discriminate|].
-           simpl. split; [|split; [exact I|left; reflexivity]].
+        -- cbn [db_items db_append] in H. rewrite dbegin_snoc in H. inversion H; subst; clear H. simpl.
+           split; [|split; [exact I|left; reflexivity]].
            constructor; unfold vL; simpl; intros; try discriminate; auto using dur_same.
-           ++ rewrite <- Ei in *. inapp. tauto.
-           ++ rewrite <- Ei. inapp. tauto.
-           ++ rewrite <- Ei. apply in_or_app. right. left. reflexivity.
+           ++ inapp. tauto.
+           ++ inapp. tauto.
+           ++ apply in_or_app. right. left. reflexivity.
         -- inversion H; subst; clear H. simpl. split; [|split; [exact I|]].
            ++ constructor; unfold vL; simpl; intros; try discriminate; auto using dur_same; inapp; tauto.
            ++ right. exists e, ROk. split; [reflexivity|]. intros _. right. left. apply in_or_app. right. left. reflexivity.
@@ -499,13 +501,12 @@ Proof.
         -- constructor; unfold vL; simpl; intros; try discriminate; auto using dur_same; inapp; tauto.
         -- right. exists e, RFull. split; [reflexivity|discriminate].
       * destruct (db_should_flush (dc_c c) (db_append (v_buf v) e)).
-        -- inversion H; subst; clear H. simpl.
-           destruct (db_items (v_buf v) ++ [e]) as [|x0 r0] eqn:Ei; [destruct (db_items (v_buf v)); discriminate|].
-           simpl. split; [|split; [exact I|left; reflexivity]].
+        -- cbn [db_items db_append] in H. rewrite dbegin_snoc in H. inversion H; subst; clear H. simpl.
+           split; [|split; [exact I|left; reflexivity]].
            constructor; unfold vL; simpl; intros; try discriminate; auto using dur_same.
-           ++ rewrite <- Ei in *. inapp. tauto.
-           ++ rewrite <- Ei. inapp. tauto.
-           ++ rewrite <- Ei. apply in_or_app. right. left. reflexivity.
+           ++ inapp. tauto.
+           ++ inapp. tauto.
+           ++ apply in_or_app. right. left. reflexivity.
         -- inversion H; subst; clear H. simpl. split; [|split; [exact I|]].
            ++ constructor; unfold vL; simpl; intros; try discriminate; auto using dur_same; inapp; tauto.
            ++ right. exists e, ROk. split; [reflexivity|]. intros _. right. left. apply in_or_app. right. left. reflexivity.
